@@ -84,6 +84,9 @@ class ActionContext(abc.ABC):
                 # the expression could not be evaluated, so this is an error result (result is the exception)
                 return WatchResult(source, watch, None, str(result)), {}, str(result)
             variable_id, log_str = var_processor.process_variable(watch, result)
+            if variable_id.vid is None:
+                # the value was not recorded (the variable limit has been reached), so there is nothing to point at
+                return WatchResult(source, watch, None, "variable limit reached"), {}, log_str
 
             return WatchResult(source, watch, variable_id), var_processor.var_lookup, log_str
         except BaseException as e:
@@ -100,6 +103,9 @@ class ActionContext(abc.ABC):
         """
         var_processor = VariableSetProcessor({}, self.var_cache)
         variable_id, log_str = var_processor.process_variable(name, variable)
+        if variable_id.vid is None:
+            # the value was not recorded (the variable limit has been reached), so there is nothing to point at
+            return WatchResult(WATCH_SOURCE_CAPTURE, name, None, "variable limit reached"), {}, log_str
 
         return WatchResult(WATCH_SOURCE_CAPTURE, name, variable_id), var_processor.var_lookup, log_str
 
